@@ -976,7 +976,8 @@ fn let_named<'a>(stmts: &'a [Stmt], name: &str) -> Vec<(usize, &'a syn::Local)> 
 /// `Module::get_function` (src/codegen/mod.rs): the key it looks a name up under, and the
 /// declaration-level facts that make the hand model `TR.get_function_at` (one table look-up
 /// with that key, the handle is the looked-up entry's function) speak for the code:
-///   * the first statement is `let name = <expr over the parameter name>;` — translated;
+///   * there is one `let name = <expr over the parameter name>;` (no statement before it
+///     touches the table) — translated;
 ///   * `name` is bound nowhere else, `self.functions` is consulted by exactly one
 ///     `.get(&name)` (and `.keys()` for the error text);
 ///   * the `let` holding that look-up binds `function_info`, `let id = function_info.id;`
@@ -1015,12 +1016,20 @@ fn module_get_function(repo: &Path) -> R {
     let names = let_named(stmts, "name");
     let mut nb = Binds("name", 0);
     nb.visit_block(&f.block);
-    if names.len() != 1 || names[0].0 != 0 || nb.1 != 1 {
+    if names.len() != 1 || nb.1 != 1 {
         return Err(format!(
-            "Module::get_function: expected `let name = …;` as the first statement and no other binding of `name` (found {} top-level, {} in all)",
+            "Module::get_function: expected one `let name = …;` and no other binding of `name` (found {} top-level, {} in all)",
             names.len(),
             nb.1
         ));
+    }
+    // statements before it (a lock acquisition, a `let` of something else) must not touch the table
+    let mut before = TableCalls(vec![]);
+    for st in &stmts[..names[0].0] {
+        before.visit_stmt(st);
+    }
+    if !before.0.is_empty() {
+        return Err(format!("Module::get_function: `self.functions` is consulted before the key is computed ({:?})", before.0));
     }
     let init = names[0].1.init.as_ref().ok_or("Module::get_function: `let name` without initialiser")?;
     if init.diverge.is_some() {
